@@ -505,3 +505,54 @@ pub fn dimension_misuse(solver: Solver) -> Vec<(String, String)> {
 
 #[allow(dead_code)]
 fn _assert_dim_usable<D: Dim>() {}
+
+/// A real problem of even dimension 2n read as a complex problem of dimension n:
+/// z_j' = f_j(t, Re z, Im z) + i f_{n+j}(t, Re z, Im z).
+pub struct ComplexOf<'a> {
+    pub real: &'a dyn Rhs<f64>,
+}
+impl<'a> Rhs<C64> for ComplexOf<'a> {
+    fn dim(&self) -> usize {
+        self.real.dim() / 2
+    }
+    fn eval(&self, t: f64, z: &[C64], out: &mut [C64]) {
+        let n = z.len();
+        let mut x = vec![0.0; 2 * n];
+        for j in 0..n {
+            x[j] = z[j].re;
+            x[n + j] = z[j].im;
+        }
+        let mut f = vec![0.0; 2 * n];
+        self.real.eval(t, &x, &mut f);
+        for j in 0..n {
+            out[j] = C64::new(f[j], f[n + j]);
+        }
+    }
+}
+
+/// pack the first n / last n real components into n complex ones
+pub fn pack_complex(y: &[f64]) -> Vec<C64> {
+    let n = y.len() / 2;
+    (0..n).map(|j| C64::new(y[j], y[n + j])).collect()
+}
+
+/// the complex outcome seen as an outcome of the real 2n-system (extra items are dropped)
+pub fn outcome_as_real(oc: &Outcome<C64>) -> Outcome<f64> {
+    let conv = |it: &Item<C64>| match it {
+        Item::Ok(t, y) => Item::Ok(*t, y.iter().map(|c| c.re).chain(y.iter().map(|c| c.im)).collect::<Vec<f64>>()),
+        Item::Err(e) => Item::Err(e.clone()),
+    };
+    Outcome::<f64> {
+        build_err: oc.build_err.clone(),
+        items: oc.items.iter().map(conv).collect(),
+        truncated: oc.truncated,
+        panic: oc.panic.clone(),
+        budget_hit: oc.budget_hit,
+        calls: oc.calls,
+        extra_some: oc.extra_some,
+        extra_calls: oc.extra_calls,
+        extra_items: vec![],
+        dim_mismatch: oc.dim_mismatch,
+        collect_after: None,
+    }
+}
